@@ -3,11 +3,13 @@
 //!   mqtt-mc <ID> --tier quick|thorough --profile <name> --out <part.json>
 //!   mqtt-mc replay <file>
 
+mod astjson;
 mod bind;
 mod checks;
 mod env;
 mod ev;
 mod fam;
+mod front;
 
 use ev::{Ctx, Tier};
 use std::time::Instant;
